@@ -346,6 +346,8 @@ def _o_funding(w):
     if built is None:
         if not line.startswith("err value"):
             return False, f"build_psbt left through {line}"
+        if not _csv(ins):
+            return True, "no inputs"
         if total_out > 2_100_000_000_000_000 or "E" in est.seen.values() or "E" in (t[7], t[8]):
             return True, "refused upstream of the decision"
         # a refusal must be one of: nothing paid, inputs short of outputs + owed, change above MAX_MONEY
@@ -663,6 +665,28 @@ def _o_amount_context(w):
     return ok, f"prec={prec}: btc_from_sats({s_}) = {b!r}, sats_from_btc back = {back}"
 
 
+def _o_amount_traps(w):
+    """a caller whose decimal context traps Inexact / Rounded still gets the library's refusal (or the exact
+    answer), never decimal's own signal: the conversions are stated to read no caller context."""
+    from decimal import Inexact, Rounded
+    fn = {"valid_btc_amount": __import__("btclib.amount", fromlist=["x"]).valid_btc_amount, "sats_from_btc": sats_from_btc,
+          "btc_from_sats": btc_from_sats, "from_sats_per_vbyte": lambda x: FeeRate.from_sats_per_vbyte(x).sats_per_kvbyte,
+          "from_btc_per_kvbyte": lambda x: FeeRate.from_btc_per_kvbyte(x).sats_per_kvbyte,
+          "sats_per_vbyte": lambda k: _rate(k).sats_per_vbyte}[w["fn"]]
+    x = Decimal(w["x"]) if w.get("decimal") else w["x"]
+    def run():
+        try:
+            return ("ok", fn(x))
+        except Exception as e:  # noqa: BLE001
+            return ("err", common.err_class(e))
+    plain = run()
+    with localcontext() as c:
+        c.traps[Inexact] = True
+        c.traps[Rounded] = True
+        trapped = run()
+    return plain == trapped and plain[1] != "foreign", f"{w['fn']}({x!r}): default context {plain}, Inexact/Rounded trapped {trapped}"
+
+
 def _o_feerate_context(w):
     k, prec = w["k"], w["prec"]
     if "x" in w:
@@ -689,6 +713,7 @@ ORACLES = {
     "amount.spelling": _o_amount_spelling,
     "amount.glue": _o_amount_glue,
     "amount.context": _o_amount_context,
+    "amount.traps": _o_amount_traps,
     "feerate.units": _o_feerate_units,
     "feerate.context": _o_feerate_context,
     "feerate.bounded_time": _o_bounded_time,
@@ -796,6 +821,8 @@ def _run_funding(ctx):
         kinds = "".join(rng.choice("wwtsp") for _ in range(rng.choice([1, 1, 2, 3, 5])))
         if rng.random() < 0.04:
             kinds += "u"
+        if rng.random() < 0.04:
+            kinds = ""        # "no inputs": refused before anything else
         n_out = rng.choice([0, 1, 1, 1, 2, 3])
         out_vals = [rng.choice([0, 546, 1000, 60_000, rng.randrange(0, 200_000)]) for _ in range(n_out)]
         change = "None" if rng.random() < 0.25 else hx(rng.choice(change_scripts))
@@ -803,7 +830,9 @@ def _run_funding(ctx):
         dust_rate = rng.choice([3000, 3000, 0, 1, 1000, 30_000])
         in_vals = [rng.randrange(1000, 150_000) for _ in kinds]
         outs = ",".join(map(str, out_vals)) or "_"
-        if mode == "real":
+        if not kinds:
+            e1 = e2 = "NA"
+        elif mode == "real":
             e1, e2 = _learn_estimates(",".join(k + "1000" for k in kinds), outs, change)
         else:
             e1 = rng.choice(["E", str(rng.randrange(-3, 3))] + [str(rng.randrange(50, 2000))] * 6)
@@ -811,7 +840,7 @@ def _run_funding(ctx):
             if change == "None":
                 e1 = "NA"
         # aim the remainder at the decision boundaries: dust threshold ± 1, owed ± 1, nothing left
-        if e1 not in ("E", "NA", "X") and e2 not in ("E", "NA", "X") and rng.random() < 0.7 and int(e2) >= 0 \
+        if kinds and e1 not in ("E", "NA", "X") and e2 not in ("E", "NA", "X") and rng.random() < 0.7 and int(e2) >= 0 \
                 and (change == "None" or int(e1) >= 0):
             owed = fee_from_vsize(int(e2), _rate(rate))
             if change != "None":
@@ -825,12 +854,12 @@ def _run_funding(ctx):
             in_vals[0] += target - sum(in_vals)
             if max(in_vals) > M:      # a fee no input could hold: every input at MAX_MONEY instead
                 in_vals = [M] * len(kinds)
-        elif rng.random() < 0.06:
+        elif kinds and rng.random() < 0.06:
             in_vals = [rng.choice([M, M - 1, M // 2 + 1]) for _ in kinds]   # sums above MAX_MONEY
             if rng.random() < 0.5 and out_vals:
                 out_vals[0] = M - rng.randrange(0, 2000)
                 outs = ",".join(map(str, out_vals))
-        ins = ",".join(k + str(v) for k, v in zip(kinds, in_vals))
+        ins = ",".join(k + str(v) for k, v in zip(kinds, in_vals)) or "_"
         line = f"funding.build {mode} {ins} {outs} {rate} {change} {dust_rate} {e1} {e2}"
         lines.append(line)
         ctx.check("funding.invariants", {"line": line})
@@ -917,6 +946,12 @@ def _run_amount(ctx):
         ctx.check("amount.spelling", {"x": x})
         ctx.check("feerate.units", {"x": x})
     ctx.check("feerate.bounded_time", {"x": "1e999999999"}, key="feerate.huge-exponent")
+    for fn, x, dec in (("valid_btc_amount", "0.123456789", False), ("sats_from_btc", "1.000000001", True),
+                       ("sats_from_btc", "0.5", False), ("sats_from_btc", "20999999.99999999", False),
+                       ("btc_from_sats", 123456789, False), ("btc_from_sats", 2099999999999999, False),
+                       ("from_sats_per_vbyte", "1.5", False), ("from_sats_per_vbyte", "1.0004", False),
+                       ("from_btc_per_kvbyte", "0.000123456", False), ("sats_per_vbyte", 1234567891, False)):
+        ctx.check("amount.traps", {"fn": fn, "x": x, "decimal": dec}, key="amount.decimal-traps")
     for x in (1.5, 0.1, 1e-8, 1e-9, 2.1e7, 3, Decimal("0.5"), 10**7, float("nan"), float("inf")):
         ctx.check("amount.spelling", {"x": x})
         ctx.check("feerate.units", {"x": x})
